@@ -24,6 +24,7 @@ CONSTANTS Kind,        \* "MG" | "SMG" | "CRG" | "SCRG"
           FollowUp,    \* TRUE: phases 1..4 take follow-up steps
           GenN,        \* generated seed graphs use identifiers 1..GenN
           SubsetMode,  \* "all" | "few"  : subsets driven through subgraph
+          SecondSet,   \* derivations applied to the derived graph in phase 1 (result into C); {} for none
           FollowMode   \* "all" | "focus": follow-up steps use every op / ops on the focus identifiers
 
 VARIABLES A, B, C, ph, last
@@ -148,16 +149,19 @@ OtherKinds == CASE Kind = "MG" -> {"MG", "SMG", "CRG", "SCRG"}
                 [] Kind = "CRG" -> {"MG", "CRG", "SCRG"}
                 [] Kind = "SCRG" -> {"MG", "SMG", "CRG", "SCRG"}
 
-DeriveOps(g) ==
-     { Op(n) : n \in DeriveSet \cap {"copy", "json_roundtrip", "compose_components", "copy_mod"} }
-  \cup { [Op("copy_ctor") EXCEPT !.tk = k] : k \in IF "copy_ctor" \in DeriveSet THEN OtherKinds ELSE {} }
+DeriveOpsFrom(g, DS) ==
+     { Op(n) : n \in DS \cap {"copy", "json_roundtrip", "compose_components", "copy_mod"} }
+  \cup { [Op("copy_ctor") EXCEPT !.tk = k] : k \in IF "copy_ctor" \in DS THEN OtherKinds ELSE {} }
   \cup { [Op("relabel_copy") EXCEPT !.m = m] :
-            m \in IF "relabel_copy" \in DeriveSet THEN { x \in Maps : RelabelOK(g, x) } ELSE {} }
-  \cup { [Op("subgraph") EXCEPT !.S = S] : S \in IF "subgraph" \in DeriveSet THEN SubsetsFor(g) ELSE {} }
-  \cup { Op(n) : n \in DeriveSet \cap (IF HasStereo(g.kind) THEN {"enantiomer"} ELSE {}) }
-  \cup { Op(n) : n \in DeriveSet \cap (IF HasRoles(g.kind) THEN {"reverse"} ELSE {}) }
+            m \in IF "relabel_copy" \in DS THEN { x \in Maps : RelabelOK(g, x) } ELSE {} }
+  \cup { [Op("subgraph") EXCEPT !.S = S] : S \in IF "subgraph" \in DS THEN SubsetsFor(g) ELSE {} }
+  \cup { Op(n) : n \in DS \cap (IF HasStereo(g.kind) THEN {"enantiomer"} ELSE {}) }
+  \cup { Op(n) : n \in DS \cap (IF HasRoles(g.kind) THEN {"reverse"} ELSE {}) }
   \cup { [Op(n) EXCEPT !.flag = f] :
-            n \in DeriveSet \cap (IF HasRoles(g.kind) THEN {"reactant", "product"} ELSE {}), f \in BOOLEAN }
+            n \in DS \cap (IF HasRoles(g.kind) THEN {"reactant", "product"} ELSE {}), f \in BOOLEAN }
+
+DeriveOps(g) == DeriveOpsFrom(g, DeriveSet)
+SecondOps(g) == DeriveOpsFrom(g, SecondSet)     \* derivations applied to the derived graph B (result into C)
 
 (* ------------------------------ seeds ------------------------------------ *)
 Star == [EmptyGraph(Kind) EXCEPT
@@ -243,6 +247,12 @@ DeriveRaise ==   \* a derivation that is refused leaves everything as it was
    \E op \in DeriveOps(A) : LET alts == Outcomes(A, NoGraph, op) IN
      \E o \in alts : /\ o.out = "raise"
                      /\ A' = o.g /\ last' = Last("A", op, o, alts) /\ UNCHANGED <<B, C, ph>>
+(* a derivation applied to the DERIVED graph, result into C (a derived graph must be as usable as a freshly built one) *)
+DeriveB ==
+   \E op \in SecondOps(B) : LET alts == Outcomes(B, NoGraph, op) IN
+     \E o \in alts : /\ o.res # NoGraph \/ o.out = "raise"
+                     /\ B' = o.g /\ C' = (IF o.out = "raise" THEN C ELSE o.res)
+                     /\ last' = Last("BC", op, o, alts) /\ ph' = 3 /\ UNCHANGED A
 ComposeAB ==
    \E ord \in {"AB", "BA"} :
      LET g1 == IF ord = "AB" THEN A ELSE B
@@ -258,6 +268,7 @@ Next ==
    \/ ph = 0 /\ DeriveRaise
    \/ FollowUp /\ ph = 1 /\ (EditA(2, FollowOps(A)) \/ EditB(2, FollowOps(B)))
    \/ FollowUp /\ ph = 1 /\ "compose" \in DeriveSet /\ ComposeAB
+   \/ FollowUp /\ ph = 1 /\ B # NoGraph /\ SecondSet # {} /\ DeriveB
    \/ FollowUp /\ ph = 3 /\ EditC(4, FollowOps(C))
 
 Spec == Init /\ [][Next]_vars
@@ -277,6 +288,7 @@ StepProps ==
    /\ (last'.slot = "A" /\ last'.op.name \in Derivers => A' = A)
    /\ (last'.slot = "B" => <<A', C'>> = <<A, C>>)
    /\ (last'.slot = "C" => <<A', B'>> = <<A, B>>)
+   /\ (last'.slot = "BC" => A' = A /\ B' = B)
    /\ (last'.op.name = "remove_atom" /\ last'.out = "ok" /\ last'.slot = "A" =>
           last'.op.a \notin AllIds(A'))
 StepInv == [][StepProps]_vars
@@ -284,7 +296,7 @@ StepInv == [][StepProps]_vars
 (* ------------------------------ emission --------------------------------- *)
 StoreJ(a, b, c, p) == JArr(<<GJ(a), GJ(b), GJ(c), JInt(p)>>)
 Recv(l) == CASE l.slot = "A" -> A [] l.slot = "B" -> B [] l.slot = "C" -> C
-             [] l.slot = "AB" -> A [] l.slot = "BA" -> B
+             [] l.slot = "AB" -> A [] l.slot = "BA" -> B [] l.slot = "BC" -> B
 EmitT ==
    PrintT("T|" \o StoreJ(A, B, C, ph) \o "#" \o StoreJ(A', B', C', ph') \o "#"
           \o JObj(<< JKV("slot", JStr(last'.slot)), JKV("op", OpJ(last'.op)),
